@@ -22,60 +22,65 @@ CLAIMED = {
          lvl("stored items reach results only behind the not-expired edge of expire(); the purge helper reports expired even when the clean-up fails; writes are refused before anything is stored when PrepareFact rejects them; the has-expiry flag and the canonical absolute expiry are computed after ttl canonicalisation and from the clock; what is persisted carries the absolute expiry.", "the boundary comparison (<= vs <), the arithmetic of setExpires, purge timing."),
          NOTE, "DESIGN.md §4 C07"),
  "C08": ("pairing / ordering rules with path-sensitive success-return classification and constant-argument specialisation; provenance of deleteWith",
-         lvl("the removal primitive always cascades (also for absent ids), the cascade runs only after the id left the map (termination on cycles), dependents come from the re-matching search for {deleteWith:[id]}, removals from memory are paired with storage removals, property facts and rule wrappers carry deleteWith.", "that exactly the dependents are found (relies on matching and the term index), deletion orders."),
+         lvl("the removal primitive always cascades (also for absent ids), the cascade runs only after the id left the map (termination on cycles), dependents come from the re-matching search for {deleteWith:[id]}, removals from memory are paired with storage removals, property facts and rule wrappers carry deleteWith; an error from removing a dependent fails the removal that started the cascade; the term extractor that feeds the index visits every key.", "that exactly the dependents are found (relies on matching and the term index), deletion orders."),
          NOTE, "DESIGN.md §4 C08"),
  "C10": ("gate analysis over SSA + VTA call graph (Enabled / RuleEnabled), pairing rules (cache invalidation, disabled flag)",
-         lvl("every Location entry refuses on the disabled edge before touching state; FindRules.Do dispatches a rule only behind RuleEnabled == true (except rules embedded in the event); every fact-map write drops the cached parse; RemRule removes the disabled flag.", "the lifecycle state machine over histories, reload survival, inherited disablement."),
+         lvl("every Location entry refuses on the disabled edge before touching state; FindRules.Do dispatches a rule only behind RuleEnabled == true asked about the id under which the rule was found (except rules embedded in the event); every fact-map write drops the cached parse; RemRule removes the disabled flag.", "the lifecycle state machine over histories, reload survival, inherited disablement."),
          NOTE, "DESIGN.md §4 C10"),
  "C11": ("lock-set (guarded-by) analysis with wrapper summaries, constant-bool specialisation, SCC fixpoint and escape-aware freshness",
-         lvl("every access to the state that different locations share (System.storage, the location cache table and entries, MemStorage, timer histories, the HTTP breaker map) is made under its mutex on every static path, or is listed as a known finding.", "per-location sequential equivalence, deadlock freedom."),
+         lvl("every access to the state that different locations share (System.storage, the location cache table and entries, MemStorage, timer histories, the HTTP breaker map) is made under its mutex on every static path, or is listed as a known finding; counters updated atomically are never accessed plainly; HTTP requests run in their own sub-context; lock classes are acquired in one global order; no append clobbers the tail of the shared cron timeline.", "per-location sequential equivalence; deadlock is decided only as far as lock ORDER goes (LOCK-ORDER: the acquired-while-holding relation over lock classes is acyclic), not for waits on channels, WaitGroups or the same lock class."),
          NOTE + " Lock identity is by (type, mutex field).", "DESIGN.md §3.1, §4 C11"),
  "C12": ("lock-set (guarded-by) analysis incl. storage writes and privilege grants as pseudo-accesses; atomic-section and pairing rules",
-         lvl("every access to the state maps/indexes/rule cache, Location.control/ReadOnly/lastUpdated and Context privilege/props is under the owning lock in a sufficient mode; storage writes and privilege grants happen under the state's write lock; no lock release between the storage write and the memory write of one operation; every privilege grant is revoked on every path. Existing violations are listed one by one as known findings so that a new unguarded access is still reported.", "linearizability of histories, deadlock."),
+         lvl("every access to the state maps/indexes/rule cache, Location.control/ReadOnly/lastUpdated and Context privilege/props is under the owning lock in a sufficient mode; storage writes and privilege grants happen under the state's write lock; no lock release between the storage write and the memory write of one operation; every privilege grant is revoked on every path; lock classes are acquired in one global order. Existing violations are listed one by one as known findings so that a new unguarded access is still reported.", "linearizability of histories; deadlock beyond lock order (LOCK-ORDER decides that the acquired-while-holding relation over lock classes is acyclic)."),
          NOTE + " Lock identity is by (type, mutex field); Context.isPrivileged assumed false where it steers slock/sunlock.", "DESIGN.md §3.1, §4 C12"),
  "C15": ("coverage (pairing with per-id matching) analysis of add/removal hooks over the state implementations; gate rule for one-shot rules; provenance of the cron job key",
-         lvl("every id that enters / leaves a state's fact map has the add / removal hook run for it first (violations on expiry, cascade and linear Clear/Delete/Load are known findings); one-shot rules are removed after they ran; with a cron shared by all locations the job key depends on the location.", "tick timing, which location a tick is evaluated in, replacement by a non-scheduled rule."),
+         lvl("every id that enters / leaves a state's fact map has the add / removal hook run for it first (violations on expiry, cascade and linear Clear/Delete/Load are known findings); one-shot rules are removed after they ran; with a cron shared by all locations the job key depends on the location; the hooks are installed before a location is loaded; a recurring job is put back on the timeline after every tick whatever the tick returned.", "tick timing, which location a tick is evaluated in, replacement by a non-scheduled rule."),
          NOTE, "DESIGN.md §4 C15"),
  "C19": ("must-pass-through (gate) analysis over go/ssa CFGs + VTA call graph; who-may-call; operand provenance in the gates",
          lvl("every path from each exported Location method and each root (JS callbacks, goroutines) to a mutating/revealing State call passes the success edge of CheckWrite/CheckRead/Enabled before the first state access; ungated mutators are called only from allow-listed code; the gates compare the right key with the right property and sub-contexts inherit the keys.", "equality of behaviour with the right keys."),
          NOTE + " Reflection-invoked closures are treated as entries; external App/Tracer/Logger implementers assumed not to touch state.", "DESIGN.md §3.2, §4 C19"),
  "C20": ("gate analysis (capacity, HTTP breaker), lock-set, atomic-section, value-dependence and sibling-agreement rules over the breakers and the throttle",
-         lvl("State.Add only behind the not-at-capacity edge; the breaker's limit test and admission increment are in one critical section; the sliding clock depends on the quantised shift; every Breaker.Do reports true whenever it ran the thunk; the throttle's pending accounting is atomic and paired and the breaker is retried only on the not-attempted edge; client.Do only behind the breaker consultation.", "the numeric rate bound over sliding windows, capacity under concurrent adds."),
+         lvl("State.Add only behind the not-at-capacity edge; the breaker's limit test and admission increment are in one critical section; the sliding clock is computed from the quantised shift (or drops the remainder only when the whole window aged out); every Breaker.Do reports true whenever it ran the thunk; the throttle's pending accounting is atomic and paired and the breaker is retried only on the not-attempted edge; client.Do only behind the breaker consultation.", "the numeric rate bound over sliding windows, capacity under concurrent adds."),
          NOTE, "DESIGN.md §4 C20"),
 }
 
 CLAIMED.update({
  "C02": ("provenance / purity (MOD) / control-dependence / sibling-agreement rules over the term index and the two search functions",
-         lvl("add, remove and search use the same term extraction; the read operations of the indexes never write through their receiver; a result is emitted only under a test of Matches(pattern, storedFact); the term extractor covers every container the matcher converts; the returned id is the memory and storage key.", "that terms(pattern) is a subset of terms(fact) for every matching pair, the intersection logic, uniqueness of generated ids, get-after-write values."),
+         lvl("add, remove and search use the same term extraction; the read operations of the indexes never write through their receiver; a result is emitted only under a test of Matches(pattern, storedFact); the term extractor covers every container the matcher converts; the returned id is the memory and storage key; the loops of the term extractor are left only by exhaustion; the property marker is tested at byte 0.", "that terms(pattern) is a subset of terms(fact) for every matching pair, the intersection logic, uniqueness of generated ids, get-after-write values."),
          NOTE, "DESIGN.md §4 C02"),
  "C04": ("fan-out ownership / synchronisation analysis of goroutines started in loops, loop-shape rule, gate rule on dispositions",
-         lvl("each concurrently running action owns a freshly allocated bindings map; the goroutines' shared writes are under one mutex allocated outside the spawning loop with WaitGroup Add/Done/Wait in place; every loop iteration that creates child nodes appends exactly one; nodes are complete only on the no-error edge.", "the variable environment seen by scripts, equality of tree / values / side effects, which bindings the condition yields."),
+         lvl("each concurrently running action owns a freshly allocated bindings map; the goroutines' shared writes are under one mutex allocated outside the spawning loop with WaitGroup Add/Done/Wait in place; every loop iteration that creates child nodes appends exactly one; nodes are complete only on the no-error edge; a new fan-out gets a new mutex only after the previous goroutines were waited for; no loop appends one shared object per iteration.", "the variable environment seen by scripts, equality of tree / values / side effects, which bindings the condition yields."),
          NOTE, "DESIGN.md §4 C04"),
  "C05": ("bottom-up MOD (may-modify) summaries over SSA with alias projection, through the sheens matcher and VTA-resolved interface dispatch",
          lvl("neither the pattern, the data nor the caller's bindings can be written through by Match / Matches / the matcher wrappers / cast / ISlice / Bind / ExtendBindings / StripQuestionMarks (the last clause of the property only).", "soundness and completeness of matching: the algorithm lives in the sheens dependency and quantifies over data."),
          NOTE, "DESIGN.md §4 C05"),
  "C09": ("recursion classification of call-graph SCCs (visited-set class), ordering rule of the ancestor walk, provenance of namespaces and cron keys, who-may-write inventory of package-level variables",
-         lvl("the ancestor walk is bounded by a visited set and visits the receiving location last; every storage call of a state uses its own name; the shared cron keys jobs by location; the set of written package-level variables is a frozen table of process-wide state.", "non-interference of results, that exactly the transitive parents' facts are seen, immediacy of parent changes."),
+         lvl("the ancestor walk is bounded by a path set whose insertions are undone, visits the receiving location last, and every callback handed to it re-points the request context at the location it visits; every storage call of a state uses its own name; the shared cron keys jobs by location; the set of written package-level variables is a frozen table of process-wide state.", "non-interference of results, that exactly the transitive parents' facts are seen, immediacy of parent changes."),
          NOTE, "DESIGN.md §4 C09"),
  "C13": ("recursion classification, type-set data-flow for unchecked assertions, explicit-panic / constant-index inventory with named exceptions, nil-after-error and nil-after-failed-assertion reachability, lock-release-by-plain-call rule, privilege pairing",
          lvl("every recursive cycle is structural, state-decreasing, bounded or visited-set guarded; no unchecked type assertion, explicit panic or unguarded constant index remains outside a table of named exceptions; no pointer is dereferenced after an only-logged error; no lock released by a plain call encloses code that can panic or leaves rulio's control; granted privileges are always revoked.", "totality in general (other nil dereferences, stack depth of structural recursion on deeply nested input, time bounds), behaviour inside otto and the sheens matcher."),
          NOTE, "DESIGN.md §4 C13"),
  "C14": ("path-sensitive error-flow from the JavaScript engine to the work-tree nodes, deferred-recover result rule, channel hand-shake rule, gate rule on dispositions",
-         lvl("every compile / run / export error reaches the caller's error result or the node's disposition and is never turned into success; a recovered interrupt sets the function's error result; the watchdog hand-shake cannot block the caller; nodes are complete only without error.", "that the interrupt stops the engine within a bound, the timeout selection arithmetic, what a finishing script sees."),
+         lvl("every compile / run / export error reaches the caller's error result or the node's disposition and is never turned into success; a recovered interrupt sets the function's error result; the watchdog hand-shake cannot block the caller; nodes are complete only without error; the request context points at the evaluating location after an inherited search (the timeout is taken from it).", "that the interrupt stops the engine within a bound, the timeout selection arithmetic, what a finishing script sees."),
          NOTE, "DESIGN.md §4 C14"),
  "C16": ("lock-set analysis of the in-memory cron, pairing / control-dependence rules, transaction-scope escape analysis, cross-transaction check-then-act rule, sibling-bucket pairing, key-layout provenance for crolt",
-         lvl("Cron.{Timeline,control,timerTarget} under the cron mutex; remove-then-insert in one critical section on every path; a job is launched only under a comparison with its due time; bolt-owned bytes do not escape their transaction; no decision read in one transaction controls a write in another; jobs<p> and time<p> are written together on every path; variable-width time keys are listed as a known finding.", "exactly-once firing, no-fire-after-Rem while a recurring job runs, restart consistency."),
+         lvl("Cron.{Timeline,control,timerTarget} under the cron mutex; remove-then-insert in one critical section on every path; a job is launched only under a comparison with its due time; bolt-owned bytes do not escape their transaction; no decision read in one transaction controls a write in another; jobs<p> and time<p> are written together on every path; variable-width time keys are listed as a known finding; buckets are chosen by the account the job key is built from; no append clobbers the tail of the timeline.", "exactly-once firing, no-fire-after-Rem while a recurring job runs, restart consistency."),
          NOTE, "DESIGN.md §4 C16"),
  "C17": ("lock-set analysis of the cache structures, who-may-call + critical-section + edge rule for the single load, gate rule for caching on success only, ordering rule on the pending flag, constant-argument rule for existence checking",
-         lvl("the cache table and entries are accessed under their locks; OpenLocation is called only from CachedLocation.Get under the entry lock on the no-location-yet edge; miss-and-insert is one critical section; a location is cached only on the no-error edge; Pending is stored before it is consulted; every operation asks for the existence check and a checked, not-created location yields an error.", "independence of results from the TTL, staleness under concurrent release."),
+         lvl("the cache table and entries are accessed under their locks; OpenLocation is called only from CachedLocation.Get under the entry lock on the no-location-yet edge; miss-and-insert is one critical section; a location is cached only on the no-error edge; Pending is stored before it is consulted; every operation asks for the existence check and a checked, not-created location yields an error; no operation uses its location after releasing it; the cache returns only the error of OpenLocation; the in-use mark must count its users (it does not: known finding, reproduced at run time).", "independence of results from the TTL over all histories."),
          NOTE, "DESIGN.md §4 C17"),
  "C18": ("path-sensitive error-flow inside ProcessRequest and ServeHTTP, provenance of getter results, writer/reader table agreement, default-case rule",
          lvl("in every /api/loc/* case the error of every getter, System call, inner request and json.Marshal reaches the error result; no System argument derives from a getter's `given` flag; every parameter read as a map is declared json in the decoder table; ServeHTTP routes every error to protest(), which writes 400 first; an unknown URI ends in an error.", "equality of results with direct System calls, escaping, URI normalisation (DWIMURI)."),
          NOTE, "DESIGN.md §4 C18"),
 })
 
+CLAIMED.update({
+ "C03": ("data-dependence (flow-sensitive on local slots) and edge-deleted reachability rules over the SSA of the six Query.Exec implementations; natural-loop exit analysis; who-produces rule for ParseQuery",
+         lvl("the wiring of the combinators: `and` hands conjunct i+1 the result of conjunct i and returns the last result; `or` hands every disjunct the single incoming binding (never an earlier disjunct's output), appends every disjunct's bindings, and leaves the loop early only under ShortCircuit and a non-empty result; `not` keeps an incoming binding exactly on the edge `the negated query produced nothing`; `pattern` searches for the pattern bound with the incoming binding and appends ExtendBindings(incoming, found) for every found binding; `code` runs the script on the incoming binding, keeps it exactly on true / non-null and merges a returned object into a per-binding copy under ?-keys; the empty query returns its input; no loop drops the remaining bindings; every combinator is produced below ParseQuery.", "which bindings a pattern produces (matching and search are value-level), equality of the result multiset with a reference evaluator over all query programs, the scripts' values, inherited facts."),
+         NOTE, "DESIGN.md §4 C03"),
+})
+
 NOT_APPLICABLE = {
- "C03": "query semantics is a denotational, value-level property over all query programs (which bindings are kept, order of concatenation, short-circuit per binding); no structural clause is both decidable from the shape of the code and a necessary condition of the stated semantics (DESIGN.md §5); a reference evaluator compared on generated programs is the right tool and is a different technique family",
 }
 
 def main():
